@@ -431,3 +431,68 @@ def field_setters(ctx, case):
         if k != priv:
             ctx.ensure(f"other-field-{k}-untouched", t.fields[k] is before[k])
     ctx.ensure("inv_traj:cache-clause", cache_ok(t))
+
+
+@contract("C03", "mdtraj/core/trajectory.py", "Trajectory.center_coordinates(mass_weighted=True)", replay="ops")
+def center_mass_weighted(ctx, case):
+    """a trajectory that still carries the traces of an earlier plain centring is centred on its centre of mass: the coordinates
+    move, so the cached traces must not survive (md.rmsd(precentered=True) would trust them)"""
+    install(ctx)
+    im = ctx.interp.import_models
+
+    class Shift:
+        def sym_getitem(self, interp, k):
+            return self
+
+    shift = Shift()
+    im["mdtraj.geometry"]._attrs["distance"] = Namespace("distance", compute_center_of_mass=lambda traj: shift)
+    F = ctx.int("F")
+    ctx.assume(F >= 1)
+    t, mod = TM.make_traj(ctx, F, 5)
+    mod.globals["distance"] = im["mdtraj.geometry"]._attrs["distance"]
+    with_traces(t)
+    xyz_before = t.fields["_xyz"]
+    n_mut = len(xyz_before.mutations)
+    out = ctx.call_method(t, "center_coordinates", mass_weighted=True)
+    ctx.ensure("no-exception", not out.raised)
+    if out.raised:
+        return
+    ctx.ensure("coordinates-were-shifted", len(t.fields["_xyz"].mutations) > n_mut or t.fields["_xyz"] is not xyz_before)
+    ctx.ensure("inv_traj:cache-clause(stale-traces-dropped-or-recomputed)", cache_ok(t))
+    ctx.ensure("returns-self", out.value is t)
+
+
+@contract("C03", "mdtraj/core/trajectory.py", "Trajectory.remove_solvent", cases=[(i, s) for i in (False, True) for s in ("some-solvent", "no-solvent")], replay="ops")
+def remove_solvent(ctx, case):
+    """remove_solvent = atom_slice on the non-solvent atoms: inplace=False always returns an independent trajectory (also when
+    there is nothing to remove); inplace=True returns self"""
+    inplace, variant = case
+    install(ctx)
+    F = ctx.int("F")
+    ctx.assume(F >= 1)
+    t, mod = TM.make_traj(ctx, F, 5)
+    names = ["ALA", "ALA", "HOH", "ALA", "HOH"] if variant == "some-solvent" else ["ALA"] * 5
+
+    class TopS(TM.TopologyTok):
+        def sym_getattr(self, interp, attr):
+            if attr == "atoms":
+                return [Namespace("atom", name=f"A{i}", index=i, residue=Namespace("residue", name=names[i])) for i in range(5)]
+            if attr == "subset":
+                return lambda idx: TM.TopologyTok(len(idx) if isinstance(idx, list) else 5, "subset")
+            return super().sym_getattr(interp, attr)
+
+    t.fields["_topology"] = TopS(5, "t.top")
+    mod.globals["_SOLVENT_TYPES"] = {"HOH", "NA", "CL"}
+    src = dict(t.fields)
+    out = ctx.call_method(t, "remove_solvent", inplace=inplace)
+    ctx.ensure("no-exception", not out.raised)
+    if out.raised:
+        return
+    r = out.value
+    if inplace:
+        ctx.ensure("inplace=True-returns-self", r is t)
+    else:
+        ctx.ensure("inplace=False:result-is-a-different-object", r is not t)
+        ctx.ensure("inplace=False:result-coordinate-buffer-is-fresh", r is not t and r.fields["_xyz"].buf != src["_xyz"].buf)
+        ctx.ensure("inplace=False:source-fields-untouched", all(t.fields[f] is src[f] for f in FIELDS))
+    ctx.ensure("inv_traj(result):cache-clause", cache_ok(r))
